@@ -15,6 +15,10 @@ static size_t get_global_activity_count(void)
   return v;
 }
 static struct thread_self *get_self_ptr(void) { if (g_self_reads < 3) g_self_reads++; return g_self; }
+/* pika::get_worker_thread_num(): the calling OS thread's registered number -- NOT "the caller is a pika task": the thread that
+ * started the runtime is registered (number N) although it never runs a task; (size_t) -1 for unregistered threads */
+static size_t g_worker_num;
+static size_t get_worker_thread_num(void) { return g_worker_num; }
 /* util::yield_while's yield_k: gives up the processor; everything may happen in between (the count is re-read afterwards) */
 static void vx_yield(void) { if (g_yields < 3) g_yields++; }
 
@@ -52,7 +56,7 @@ void harness(void)
 {
 #ifdef U_TM_SUSPEND
   static struct tm tm;
-  vx_exc = 0; g_self = NULL; g_self_reads = 0; g_waits = g_susp_total = g_susp_victim = 0; g_resumes = 0;
+  vx_exc = 0; g_self = NULL; g_self_reads = 0; g_waits = g_susp_total = g_susp_victim = 0; g_resumes = 0; g_worker_num = nondet_size();
   tm.npools = nondet_size(); g_vp = nondet_size();
   thread_manager_suspend(&tm);
   if (tm.npools == 1) VX_REACH("one_pool"); if (tm.npools > 1 && g_vp > 0) VX_REACH("several_pools");
@@ -60,7 +64,7 @@ void harness(void)
 #else
   static struct thread_self me;
   vx_exc = 0; g_reads = g_yields = g_self_reads = 0; g_count = nondet_size(); g_last_count = nondet_size();
-  g_self = nondet_bool() ? &me : NULL;
+  g_self = nondet_bool() ? &me : NULL; g_worker_num = nondet_size();
   thread_manager_wait();
   if (g_self && g_yields == 0) VX_REACH("task_caller_idle_at_once");
   if (!g_self && g_yields == 0) VX_REACH("external_caller_idle_at_once");
